@@ -612,6 +612,20 @@ pub struct BatchCase {
     /// every one of its polls is a runnable of the batch like any other - the batch per dispatch stays bounded
     #[serde(default)]
     pub yields: u32,
+    /// this many (0..=8) futures whose single poll takes 3 ms are scheduled first: a batch that takes long is still a
+    /// batch - everything queued behind them is polled and delivered too
+    #[serde(default)]
+    pub slow: u8,
+}
+
+struct Slow(u32);
+impl Future for Slow {
+    type Output = u32;
+    fn poll(self: Pin<&mut Self>, _: &mut Context<'_>) -> Poll<u32> {
+        BATCH_POLLS.with(|p| p.set(p.get() + 1));
+        std::thread::sleep(Duration::from_millis(3));
+        Poll::Ready(self.0)
+    }
 }
 
 thread_local! {
@@ -666,6 +680,13 @@ fn run_batch(c: &BatchCase) -> CaseOutcome {
         })
         .expect("insert");
     let mut want: Vec<u32> = vec![];
+    if c.slow > 0 {
+        info.classes.push("slow_polls_in_the_batch");
+    }
+    for k in 0..c.slow.min(8) as u32 {
+        sch.schedule(Slow(4_000_000 + k)).expect("schedule");
+        want.push(4_000_000 + k);
+    }
     for i in 0..c.n {
         let nested = if c.nested_every > 0 && i % c.nested_every == 0 { Some((sch.clone(), 1_000_000 + i)) } else { None };
         if nested.is_some() {
@@ -674,16 +695,14 @@ fn run_batch(c: &BatchCase) -> CaseOutcome {
         sch.schedule(Ready(i, nested)).expect("schedule");
         want.push(i);
     }
-    if from_cb && c.n > 0 {
+    if from_cb && (c.n > 0 || c.yields > 0 || c.slow > 0) {
+        // (the callback schedules it the first time it runs, i.e. as soon as anything completes)
         want.push(2_000_000);
     }
     if c.yields > 0 {
         info.classes.push("self_yielding_future");
         sch.schedule(Yielder(c.yields, 3_000_000)).expect("schedule");
         want.push(3_000_000);
-        if from_cb && c.n == 0 {
-            want.push(2_000_000);
-        }
     }
     let mut got: Vec<u32> = vec![];
     let rounds = (want.len() as u32 + c.yields) / 1024 + 3;
@@ -1108,7 +1127,7 @@ pub fn check(ctx: &CheckCtx) -> Option<Found> {
     }
     for n in [0u32, 1, 2, 1023, 1024, 1025, 2047, 2048, 2100, 3100] {
         for (nested_every, from_cb) in [(0u32, false), (1, false), (7, true)] {
-            let c = BatchCase { n, nested_every, from_cb, yields: if nested_every == 1 { 0 } else if from_cb { 2500 } else { 1100 } };
+            let c = BatchCase { n, nested_every, from_cb, yields: if nested_every == 1 { 0 } else if from_cb { 2500 } else { 1100 }, slow: if n <= 2 { 4 } else { 0 } };
             let (info, v) = run_batch(&c);
             ctx.col.record(&info, || serde_json::to_value(&c).unwrap());
             if let Some(v) = v {
@@ -1133,7 +1152,7 @@ pub fn check(ctx: &CheckCtx) -> Option<Found> {
     if let Some(f) = ctx.search("stream_burst", sb, t.pick(150, 3000), 8, None, run_stream_burst) {
         return Some(f);
     }
-    let bs = (0u32..3300, prop_oneof![Just(0u32), 1u32..50], any::<bool>(), prop_oneof![2 => Just(0u32), 1 => 1u32..3000]).prop_map(|(n, nested_every, from_cb, yields)| BatchCase { n, nested_every, from_cb, yields });
+    let bs = (0u32..3300, prop_oneof![Just(0u32), 1u32..50], any::<bool>(), prop_oneof![2 => Just(0u32), 1 => 1u32..3000], prop_oneof![5 => Just(0u8), 1 => 1u8..=6]).prop_map(|(n, nested_every, from_cb, yields, slow)| BatchCase { n, nested_every, from_cb, yields, slow });
     if let Some(f) = ctx.search("batch", bs, t.pick(200, 5000), 8, None, run_batch) {
         return Some(f);
     }
